@@ -83,3 +83,153 @@ pub fn query<A: HC>(q: &str, t: &mut Toks) -> R<String> {
         _ => return Err(Fail::BadOp(format!("unknown query {q}"))),
     })
 }
+
+// ---------------------------------------------------------------------------
+// codec-specific queries (IUPAC set algebra, conversions, translation, codon tables)
+
+use bio_seq::codec::text;
+use bio_seq::translation::{CodonTable, PartialTranslationTable, TranslationError, TranslationTable, STANDARD};
+use std::collections::HashMap;
+
+fn terr<A: Codec, B: Codec>(e: &TranslationError<A, B>) -> &'static str {
+    match e {
+        TranslationError::AmbiguousCodon(_) => "terr:ambiguouscodon",
+        TranslationError::AmbiguousTranslation(_) => "terr:ambiguoustranslation",
+        TranslationError::InvalidCodon(_) => "terr:invalidcodon",
+        TranslationError::InvalidAmino(_) => "terr:invalidamino",
+    }
+}
+
+fn codon_table<A: HC>(t: &mut Toks) -> R<String> {
+    let n = t.num()?;
+    let mut entries: Vec<(Seq<A>, Amino)> = vec![];
+    for _ in 0..n {
+        let h = t.hex()?;
+        let codon = Seq::<A>::try_from(h.as_slice())?;
+        let a = item::<Amino>(t.num()?);
+        entries.push((codon, a));
+    }
+    // later pairs with an equal key overwrite the value (HashMap::from_iter)
+    let nq = t.num()?;
+    enum Q {
+        Codon(S),
+        Amino(usize),
+    }
+    let mut qs = vec![];
+    for _ in 0..nq {
+        match t.next()? {
+            "c" => qs.push(Q::Codon(parse_s(t)?)),
+            "a" => qs.push(Q::Amino(t.num()?)),
+            _ => return Err(Fail::BadOp("codontable query".into())),
+        }
+    }
+    let mut first: Option<String> = None;
+    // rebuild several times: every HashMap gets a fresh RandomState, hence a different iteration order
+    for _round in 0..12 {
+        let map: HashMap<Seq<A>, Amino> = entries.iter().map(|(k, v)| (k.clone(), *v)).collect();
+        let table = CodonTable::from_map(map);
+        let mut outs = vec![];
+        for q in &qs {
+            match q {
+                Q::Codon(s) => {
+                    let r = eval_s::<A, _>(s, &mut |x| {
+                        Ok(match table.try_to_amino(x) {
+                            Ok(a) => format!("{:02x}", a.to_bits()),
+                            Err(e) => terr(&e).to_string(),
+                        })
+                    })?;
+                    outs.push(r);
+                }
+                Q::Amino(i) => {
+                    let a = item::<Amino>(*i);
+                    outs.push(match table.try_to_codon(a) {
+                        Ok(c) => format!("codon:{}", content(&c)),
+                        Err(e) => terr(&e).to_string(),
+                    });
+                }
+            }
+        }
+        let s = if outs.is_empty() { "-".to_string() } else { outs.join(";") };
+        match &first {
+            None => first = Some(s),
+            Some(f) => {
+                if *f != s {
+                    return Ok(format!("ORDER-DEPENDENT {f} vs {s}"));
+                }
+            }
+        }
+    }
+    Ok(first.unwrap())
+}
+
+pub fn special(codec: &str, q: &str, t: &mut Toks) -> Option<R<String>> {
+    Some((|| -> R<String> {
+        Ok(match (codec, q) {
+            ("iupac", "contains") => {
+                let kind = t.next()?.to_string();
+                let a = parse_s(t)?;
+                let b = parse_s(t)?;
+                match kind.as_str() {
+                    "seq" => {
+                        let l: Seq<Iupac> = eval_s::<Iupac, _>(&a, &mut |x| Ok(x.to_owned()))?;
+                        eval_s::<Iupac, _>(&b, &mut |y| Ok(format!("{}", l.contains(y))))?
+                    }
+                    "slice" => eval_s::<Iupac, _>(&a, &mut |x| eval_s::<Iupac, _>(&b, &mut |y| Ok(format!("{}", x.contains(y)))))?,
+                    _ => return Err(Fail::BadOp("contains kind".into())),
+                }
+            }
+            ("dna", "conv") => {
+                let target = t.next()?.to_string();
+                let s = parse_s(t)?;
+                match target.as_str() {
+                    "iupac" => eval_s::<Dna, _>(&s, &mut |x| Ok(show(&Seq::<Iupac>::from(x))))?,
+                    "text" => eval_s::<Dna, _>(&s, &mut |x| Ok(show(&Seq::<text::Dna>::from(x))))?,
+                    _ => return Err(Fail::BadOp("conv target".into())),
+                }
+            }
+            ("dna", "toamino") => {
+                let s = parse_s(t)?;
+                eval_s::<Dna, _>(&s, &mut |x| Ok(format!("{:02x}", STANDARD.to_amino(x).to_bits())))?
+            }
+            ("dna", "translate") => {
+                // translate by windows(3) and by chunks(3)
+                let s = parse_s(t)?;
+                eval_s::<Dna, _>(&s, &mut |x| {
+                    let w: Seq<Amino> = x.windows(3).map(|c| STANDARD.to_amino(c)).collect();
+                    let c: Seq<Amino> = x.chunks(3).map(|c| STANDARD.to_amino(c)).collect();
+                    Ok(format!("{} {}", content(&w), content(&c)))
+                })?
+            }
+            ("iupac", "trytoamino") => {
+                let s = parse_s(t)?;
+                eval_s::<Iupac, _>(&s, &mut |x| {
+                    Ok(match STANDARD.try_to_amino(x) {
+                        Ok(a) => format!("{:02x}", a.to_bits()),
+                        Err(e) => terr(&e).to_string(),
+                    })
+                })?
+            }
+            ("amino", "trytocodon") => {
+                let a = item::<Amino>(t.num()?);
+                match STANDARD.try_to_codon(a) {
+                    Ok(c) => format!("codon:{}", content(&c)),
+                    Err(e) => terr(&e).to_string(),
+                }
+            }
+            ("amino", "tocodon") => {
+                let a = item::<Amino>(t.num()?);
+                match STANDARD.to_codon(a) {
+                    Ok(c) => format!("codon:{}", content(&c)),
+                    Err(e) => terr(&e).to_string(),
+                }
+            }
+            ("dna", "codontable") => codon_table::<Dna>(t)?,
+            ("iupac", "codontable") => codon_table::<Iupac>(t)?,
+            _ => return Err(Fail::BadOp("nospecial".into())),
+        })
+    })())
+    .and_then(|r| match r {
+        Err(Fail::BadOp(m)) if m == "nospecial" => None,
+        other => Some(other),
+    })
+}
